@@ -424,38 +424,63 @@ Proof.
            ltac:(lia) b v e q eq_refl W); auto.
 Qed.
 
-Lemma Att_total b : decAtt payload inner_dec b <> Panic.
+Lemma Att_total pre b : decAtt payload inner_dec pre b <> Panic.
 Proof.
   unfold decAtt.
   pose proof (I_total b) as HI. pose proof (V_total b) as HV.
   destruct (decI payload inner_dec b) as [[[? ?] ?] | e |]; try congruence.
-  destruct (is_offset_err e); [| congruence].
-  destruct (decV payload inner_dec b) as [[? ?] | |]; congruence.
+  destruct (pre && negb (is_offset_err e))%bool; [congruence |].
+  destruct (decV payload inner_dec b) as [[? ?] | e' |]; try congruence.
+  destruct (is_offset_err e); congruence.
 Qed.
 
-Lemma Att_roundtrip_idx ver idx p :
+Lemma Att_roundtrip_idx pre ver idx p :
   ver < nver -> idx < 2 ^ 64 -> inner_dec ver (inner_enc ver p) = IOk p ->
   exists b, encAtt payload inner_enc (ver, Some idx, p) = Some b /\
-            decAtt payload inner_dec b = Ok (ver, Some idx, p).
+            decAtt payload inner_dec pre b = Ok (ver, Some idx, p).
 Proof.
   intros Hv Hi Hin. destruct (I_roundtrip ver idx p Hv Hi Hin) as (b & E & D).
   exists b. split; [exact E |]. unfold decAtt. now rewrite D.
 Qed.
 
-(* Legacy form (no validator index): the bytes are first read as shape I.  The round trip holds when
-   that first reading is refused with an offset-class error -- in particular whenever bytes 4..8 of
-   the inner encoding (for an attestation: the low half of data.slot) are not the number 20. *)
+(* Legacy form (no validator index): the bytes are first read as shape I.
+   Current rule: the round trip holds exactly when that first reading does not succeed. *)
 Lemma Att_roundtrip_noidx ver p b :
   ver < nver -> inner_dec ver (inner_enc ver p) = IOk p ->
   encAtt payload inner_enc (ver, None, p) = Some b ->
+  (forall r, decI payload inner_dec b <> Ok r) ->
+  decAtt payload inner_dec false b = Ok (ver, None, p).
+Proof.
+  intros Hv Hin E HI.
+  destruct (V_roundtrip ver p Hv Hin) as (b' & E' & D').
+  assert (Eb : b' = b).
+  { unfold encAtt, encV in *. rewrite E in E'. congruence. }
+  subst b'. unfold decAtt.
+  destruct (decI payload inner_dec b) as [r | e |] eqn:DI.
+  - exfalso. exact (HI r eq_refl).
+  - simpl. now rewrite D'.
+  - exfalso. exact (I_total b DI).
+Qed.
+
+(* ... and only then: when the indexed reading of the legacy bytes succeeds, a value WITH a validator
+   index is returned, never the encoded one. *)
+Lemma Att_noidx_misdecoded pre b ver idx q :
+  decI payload inner_dec b = Ok (ver, idx, q) ->
+  decAtt payload inner_dec pre b = Ok (ver, Some idx, q).
+Proof. intros D. unfold decAtt. now rewrite D. Qed.
+
+(* Rule before the repair: the first reading had to be refused with an offset-class error. *)
+Lemma Att_roundtrip_noidx_pre ver p b :
+  ver < nver -> inner_dec ver (inner_enc ver p) = IOk p ->
+  encAtt payload inner_enc (ver, None, p) = Some b ->
   (exists e, decI payload inner_dec b = Err e /\ is_offset_err e = true) ->
-  decAtt payload inner_dec b = Ok (ver, None, p).
+  decAtt payload inner_dec true b = Ok (ver, None, p).
 Proof.
   intros Hv Hin E (e & DI & Ho).
   destruct (V_roundtrip ver p Hv Hin) as (b' & E' & D').
   assert (Eb : b' = b).
   { unfold encAtt, encV in *. rewrite E in E'. congruence. }
-  subst b'. unfold decAtt. now rewrite DI, Ho, D'.
+  subst b'. unfold decAtt. rewrite DI, Ho. simpl. now rewrite D'.
 Qed.
 
 Lemma decI_offset_err b x :
@@ -473,21 +498,12 @@ Proof.
   exfalso. apply Ho. exact Heq.
 Qed.
 
-Lemma Att_roundtrip_noidx_slot ver p b :
-  ver < nver -> inner_dec ver (inner_enc ver p) = IOk p ->
-  encAtt payload inner_enc (ver, None, p) = Some b ->
-  (8 <= length (inner_enc ver p))%nat ->
+Lemma legacy_decI_offset ver p :
+  ver < nver -> (8 <= length (inner_enc ver p))%nat ->
   (forall s, slice (inner_enc ver p) 4 8 = Some s -> le_dec s <> 20) ->
-  decAtt payload inner_dec b = Ok (ver, None, p).
+  decI payload inner_dec (le_enc 8 ver ++ le_enc 4 (N.of_nat (fixed 0)) ++ inner_enc ver p) = Err EOffset.
 Proof.
-  intros Hv Hin E Hl Hs.
-  apply (Att_roundtrip_noidx ver p b Hv Hin E).
-  exists EOffset. split; [| reflexivity].
-  unfold encAtt, encV, enc_gen in E. destruct (N.leb_spec nver ver); [lia |].
-  assert (Eb : b = le_enc 8 ver ++ le_enc 4 (N.of_nat (fixed 0)) ++ inner_enc ver p).
-  { change (le_enc 8 ver ++ le_enc 4 (N.of_nat (fixed 0)) ++ inner_enc ver p)
-      with (le_enc 8 ver ++ [] ++ le_enc 4 (N.of_nat (fixed 0)) ++ inner_enc ver p). congruence. }
-  clear E. subst b.
+  intros Hv Hl Hs.
   set (pb := inner_enc ver p) in *.
   assert (L8 : length (le_enc 8 ver) = 8%nat) by apply le_enc_length.
   assert (L4 : length (le_enc 4 (N.of_nat (fixed 0))) = 4%nat) by apply le_enc_length.
@@ -502,6 +518,57 @@ Proof.
       unfold slice. destruct (Nat.leb_spec 4 8); [| lia]. destruct (Nat.leb_spec 8 (length pb)); [| lia].
       simpl andb. cbv iota. f_equal. }
     exact (Hs ob Spb).
+Qed.
+
+Lemma legacy_bytes ver p b :
+  ver < nver -> encAtt payload inner_enc (ver, None, p) = Some b ->
+  b = le_enc 8 ver ++ le_enc 4 (N.of_nat (fixed 0)) ++ inner_enc ver p.
+Proof.
+  intros Hv E. unfold encAtt, encV, enc_gen in E. destruct (N.leb_spec nver ver); [lia |].
+  change (le_enc 8 ver ++ le_enc 4 (N.of_nat (fixed 0)) ++ inner_enc ver p)
+    with (le_enc 8 ver ++ [] ++ le_enc 4 (N.of_nat (fixed 0)) ++ inner_enc ver p). congruence.
+Qed.
+
+(* sufficient for both rules: bytes 4..8 of the inner encoding (for an attestation: the low half of
+   data.slot) do not read 20 *)
+Lemma Att_roundtrip_noidx_slot pre ver p b :
+  ver < nver -> inner_dec ver (inner_enc ver p) = IOk p ->
+  encAtt payload inner_enc (ver, None, p) = Some b ->
+  (8 <= length (inner_enc ver p))%nat ->
+  (forall s, slice (inner_enc ver p) 4 8 = Some s -> le_dec s <> 20) ->
+  decAtt payload inner_dec pre b = Ok (ver, None, p).
+Proof.
+  intros Hv Hin E Hl Hs.
+  pose proof (legacy_decI_offset ver p Hv Hl Hs) as DI.
+  rewrite <- (legacy_bytes ver p b Hv E) in DI.
+  destruct pre.
+  - apply (Att_roundtrip_noidx_pre ver p b Hv Hin E). exists EOffset. split; [exact DI | reflexivity].
+  - apply (Att_roundtrip_noidx ver p b Hv Hin E). intros r. rewrite DI. discriminate.
+Qed.
+
+(* current rule, second sufficient condition: the inner decoder refuses the inner encoding shifted by
+   8 bytes (what the indexed reading hands it) *)
+Lemma Att_roundtrip_noidx_shift ver p b :
+  ver < nver -> inner_dec ver (inner_enc ver p) = IOk p ->
+  encAtt payload inner_enc (ver, None, p) = Some b ->
+  (forall sfx q, slice b 20 (length b) = Some sfx -> inner_dec ver sfx <> IOk q) ->
+  decAtt payload inner_dec false b = Ok (ver, None, p).
+Proof.
+  intros Hv Hin E Hs.
+  apply (Att_roundtrip_noidx ver p b Hv Hin E).
+  intros [[v i] q] D. unfold decI in D.
+  destruct (dec_gen payload 8 true (fun v _ => inner_dec v) b) as [[[v0 e0] q0] | |] eqn:G; try discriminate.
+  injection D as <- <- <-.
+  pose proof (gen_decode_ok payload 8 true _ ltac:(lia) _ _ _ _ G) as (vb & ob & pb & S1 & Dv & _ & _ & _ & _ & _ & St & S4 & I).
+  rewrite (St eq_refl) in S4. change (N.to_nat (N.of_nat (fixed 8))) with 20%nat in S4.
+  (* the version read by the indexed reading is the encoded one *)
+  assert (v0 = ver).
+  { rewrite (legacy_bytes ver p b Hv E) in S1.
+    assert (L8 : length (le_enc 8 ver) = 8%nat) by apply le_enc_length.
+    rewrite <- L8 in S1 at 2. rewrite slice_app_head in S1.
+    assert (Evb : vb = le_enc 8 ver) by congruence.
+    rewrite <- Dv, Evb. apply le_dec_enc. unfold nver in Hv. change (256 ^ N.of_nat 8) with 18446744073709551616. lia. }
+  subst v0. rewrite H in I. exact (Hs pb q0 S4 I).
 Qed.
 End VFacts.
 
@@ -668,18 +735,32 @@ Lemma D_noncanonical_accepted :
   decD (encD nc_duty ++ [9]) = Ok nc_duty /\ encD nc_duty <> encD nc_duty ++ [9].
 Proof. split; [reflexivity |]. vm_compute. discriminate. Qed.
 
-(* The legacy attestation form does not round-trip for every value: with an inner codec that
-   refuses (non-offset error) the shifted reading, the encoding of a value whose inner bytes 4..8
-   read 20 is rejected by the decoder.  (On the real types: an attestation without validator index
-   whose data.slot is 20.) *)
+(* Before dd3af90 the legacy attestation form did not round-trip even for values whose indexed reading
+   fails: with an inner codec that refuses (non-offset error) the shifted reading, the encoding of a
+   value whose inner bytes 4..8 read 20 was rejected.  (On the real types: an attestation without
+   validator index whose data.slot is 20 mod 2^32.)  The current rule decodes it. *)
 Definition legacy_dec (_ : N) (b : bytes) : ires bytes :=
   match b with 0 :: _ => IErr false | _ => IOk b end.
 Definition legacy_payload : bytes := [228;0;0;0; 20;0;0;0; 0;0;0;0; 1;2;3].
-Lemma Att_legacy_roundtrip_refuted :
+Lemma Att_legacy_roundtrip_refuted_before_fix :
   legacy_dec 4 (id_enc1 4 legacy_payload) = IOk legacy_payload /\
   exists b, encAtt bytes id_enc1 (4, None, legacy_payload) = Some b /\
-            decAtt bytes legacy_dec b = Err (EInner false).
-Proof. split; [reflexivity |]. eexists. split; reflexivity. Qed.
+            decAtt bytes legacy_dec true b = Err (EInner false) /\
+            decAtt bytes legacy_dec false b = Ok (4, None, legacy_payload).
+Proof. split; [reflexivity |]. eexists. repeat split; reflexivity. Qed.
+
+(* What remains after the repair is inherent in the two layouts sharing one wire: when the shifted
+   reading is accepted by the inner decoder, the legacy encoding of one value IS the indexed
+   encoding of another, and the decoder returns the other.  (On the real types: data.slot =
+   228 * 2^32 + 20 and at least 9 bytes of aggregation bits -- observed on core.VersionedAttestation by
+   the harness.) *)
+Definition ambiguous_payload : bytes := [228;0;0;0; 20;0;0;0; 228;0;0;0; 1;2;3].
+Lemma Att_legacy_roundtrip_refuted_ambiguous :
+  legacy_dec 4 (id_enc1 4 ambiguous_payload) = IOk ambiguous_payload /\
+  exists b, encAtt bytes id_enc1 (4, None, ambiguous_payload) = Some b /\
+            decAtt bytes legacy_dec false b = Ok (4, Some (12 + 228 * 2 ^ 32), [228;0;0;0; 1;2;3]) /\
+            encAtt bytes id_enc1 (4, Some (12 + 228 * 2 ^ 32), [228;0;0;0; 1;2;3]) = Some b.
+Proof. split; [reflexivity |]. eexists. repeat split; reflexivity. Qed.
 
 (* ------------------------------------------------------------------------------------------- *)
 (* unmarshal and dispatch *)
